@@ -93,6 +93,9 @@ func runCheck(id, tier string, updateBaseline bool, only string) int {
 	}
 	seed := 0
 	fmt.Sscanf(os.Getenv("VERIF_SEED"), "%d", &seed)
+	if only == "" {
+		os.RemoveAll(filepath.Join(outDir(), "replays", id)) // replay files describe this run only
+	}
 	var specs []string
 	for _, s := range cfg.Specs {
 		if !filepath.IsAbs(s) {
